@@ -1486,7 +1486,107 @@ def pausetwice(rng):
     return {"cfg": _cfg(rng, 3), "ops": ops}
 
 
-FAMILIES = {"pausetwice": pausetwice, "closecross": closecross, "dustflood": dustflood, "evreload": evreload, "cfgreload": cfgreload, "badonion": badonion, "inflightadd": inflightadd, "openshut": openshut, "windowlimit": windowlimit, "tampercs": tampercs, "fwdlate": fwdlate, "asyncsign": asyncsign, "skim": skim, "batchopen": batchopen, "discomplete": discomplete, "monbcast": monbcast, "staletwo": staletwo, "bigclaim": bigclaim, "dustclose": dustclose, "slots": slots, "asynccross": asynccross, "blockedjump": blockedjump, "feecross": feecross, "opendisc": opendisc, "chainsettle": chainsettle, "crosslimit": crosslimit, "evhold": evhold, "failwin": failwin, "fanin": fanin, "inflight": inflight, "holdcell": holdcell, "stalehold": stalehold}
+def downclose(rng):
+    """A node's process is DOWN (`kill` ... `crash`) while the world moves on: its peers close channels with it
+    unilaterally, blocks are mined, recipients claim on chain.  The node dies with an exchange on one of its links
+    half done (every cut of add / commitment_signed / revoke_and_ack / commitment_signed / revoke_and_ack) and,
+    usually, with a further update of that link handed to a monitor write that never landed; its manager recorded
+    the write as in flight.  After the restart the application first brings monitors and manager up to the chain
+    tip -- they learn of the close there -- and only then does the manager replay what it had recorded (C02 / C10:
+    an HTLC that is an output of the commitment that confirmed is failed backwards only when it can no longer be
+    claimed; a payment the recipient claimed -- by message or on chain -- is reported sent, never failed)."""
+    n = rng.choice([2, 3, 3, 3, 3])
+    x = 1 if n == 3 and rng.random() < 0.75 else rng.randrange(n)
+    pairs = [(i, i + 1) for i in range(n - 1)]
+    dirs = pairs + [(b, a) for (a, b) in pairs]
+    ops = []
+    npay = 0
+    ends = [(0, n - 1), (n - 1, 0)] if n == 3 else [(0, 1), (1, 0)]
+
+    def walk(a, b, cut=None):
+        """one payment a -> b, its exchanges done link by link; the LAST link's exchange is cut after `cut` messages"""
+        nonlocal npay
+        ops.append({"op": "send", "from": a, "to": b, "amt": rng.choice(["big", "big", "justabove"])})
+        npay += 1
+        step = 1 if b > a else -1
+        hops = list(range(a, b, step))
+        for h in hops:
+            u, v = h, h + step
+            natural = [(u, v), (u, v), (v, u), (v, u), (u, v)]
+            k = len(natural) if (h != hops[-1] or cut is None) else cut
+            for (f, t) in natural[:k]:
+                ops.append({"op": "deliver", "from": f, "to": t})
+            if k < len(natural):
+                return
+            if v != b:
+                ops.append({"op": "forward", "node": v})
+
+    for _ in range(rng.choice([0, 0, 1])):
+        a, b = rng.choice(ends)
+        walk(a, b)
+        ops.append({"op": "deliver_all"})
+    # the exchange that is half done when X dies (X is on its last link, as sender or as receiver)
+    a, b = rng.choice(ends)
+    if n == 3 and x == 1:
+        a, b = rng.choice([(0, 2), (2, 0)])
+    walk(a, b, cut=rng.randrange(0, 6))
+    if rng.random() < 0.8:
+        ops.append({"op": "persist_mode", "node": x, "mode": "inprogress"})
+        r = rng.random()
+        if r < 0.6:
+            a2, b2 = (a, b) if rng.random() < 0.7 else rng.choice(ends)
+            walk(a2, b2, cut=rng.randrange(0, 4))
+        elif r < 0.8 and npay > 1:
+            ops.append({"op": "claim" if rng.random() < 0.7 else "fail", "pay": 0})
+            ops += _deliveries(rng, dirs, rng.randrange(0, 4))
+        else:
+            ops.append({"op": "fee", "node": 0, "feerate": rng.choice([500, 1000])})
+            ops += _deliveries(rng, dirs, rng.randrange(0, 4))
+        if rng.random() < 0.2:
+            ops.append({"op": "complete", "node": x, "which": "oldest"})
+    ops.append({"op": "kill", "node": x})
+    peers = [j for j in range(n) if abs(j - x) == 1]
+    closers = [j for j in peers if rng.random() < 0.8]
+    rng.shuffle(closers)
+    decided = set()
+    for j in closers:
+        ops.append({"op": "force_close", "a": j, "b": x})
+    def decide(k):
+        # a recipient that claims does so through its manager and, where its channel is being resolved on chain, by
+        # handing the preimage to its monitor (an HTLC its manager does not hold yet may be an output of the
+        # commitment that confirmed)
+        decided.add(k)
+        if rng.random() < 0.8:
+            ops.append({"op": "claim", "pay": k})
+            ops.append({"op": "claim_onchain", "pay": k})
+        else:
+            ops.append({"op": "fail", "pay": k})
+    for _ in range(rng.choice([0, 1, 1, 2, 3, 6, 7, 8])):
+        ops.append({"op": "mine"})
+        if rng.random() < 0.25:
+            k = rng.randrange(npay)
+            if k not in decided:
+                decide(k)
+    ops.append({"op": "crash", "node": x, "mgr": rng.choice([0, 0, 0, 1]), "mon": rng.choice(["durable", "durable", "random", "latest"])})
+    for (u, v) in pairs:
+        if rng.random() < 0.85:
+            ops.append({"op": "reconnect", "a": u, "b": v})
+    ops += _deliveries(rng, dirs, rng.randrange(0, 6))
+    ops += [{"op": "mine"}] * rng.choice([0, 0, 1, 6, 7])
+    if rng.random() < 0.5:
+        ops.append({"op": "deliver_all"})
+    for k in range(npay):
+        if k not in decided and rng.random() < 0.85:
+            decide(k)
+    ops += _deliveries(rng, dirs, rng.randrange(0, 6))
+    ops += [{"op": "hold_events", "node": i, "on": False} for i in range(n)]
+    ops.append({"op": "settle_chain"})
+    ops += [{"op": "proj", "final": True}]
+    cfg = _cfg(rng, n)
+    return {"cfg": cfg, "ops": ops}
+
+
+FAMILIES = {"downclose": downclose, "pausetwice": pausetwice, "closecross": closecross, "dustflood": dustflood, "evreload": evreload, "cfgreload": cfgreload, "badonion": badonion, "inflightadd": inflightadd, "openshut": openshut, "windowlimit": windowlimit, "tampercs": tampercs, "fwdlate": fwdlate, "asyncsign": asyncsign, "skim": skim, "batchopen": batchopen, "discomplete": discomplete, "monbcast": monbcast, "staletwo": staletwo, "bigclaim": bigclaim, "dustclose": dustclose, "slots": slots, "asynccross": asynccross, "blockedjump": blockedjump, "feecross": feecross, "opendisc": opendisc, "chainsettle": chainsettle, "crosslimit": crosslimit, "evhold": evhold, "failwin": failwin, "fanin": fanin, "inflight": inflight, "holdcell": holdcell, "stalehold": stalehold}
 
 
 def make(rng, family, count):
